@@ -61,7 +61,20 @@ let jrerr = function
   | RNoExemption y -> Printf.sprintf "{\"kind\":\"NoExemption\",\"year\":%s}" (string_of_z y)
   | RBadYear y -> Printf.sprintf "{\"kind\":\"BadYear\",\"year\":%s}" (string_of_z y)
 
+(* bytes <-> extracted `list ascii` *)
+let text_of_string (s : Stdlib.String.t) = List.init (String.length s) (fun i -> ascii_of_char s.[i])
+let string_of_text (t : ascii list) = let b = Buffer.create 64 in List.iter (fun a -> Buffer.add_char b (char_of_ascii a)) t; Buffer.contents b
+let unhex (h : Stdlib.String.t) = Stdlib.String.init (String.length h / 2) (fun i -> Char.chr (int_of_string ("0x" ^ String.sub h (2 * i) 2)))
+let hex (s : Stdlib.String.t) = let b = Buffer.create 64 in String.iter (fun c -> Buffer.add_string b (Printf.sprintf "%02x" (Char.code c))) s; Buffer.contents b
+let rec n_of_z = function Z0 -> N0 | Zpos p -> Npos p | Zneg _ -> N0
+let perr_s = function EGrammar -> "Grammar" | EDate -> "Date" | EDecimalUnsupported -> "Unsupported" | ECurrency -> "Currency"
+let currencies : (Stdlib.String.t, unit) Hashtbl.t = Hashtbl.create 256
+let valid_cur (t : ascii list) = Hashtbl.mem currencies (string_of_text t)
+let mk_dec m sc = { d_mant = n_of_z (z_of_string m); d_scale = nat_of_int (int_of_string sc) }
+let mk_money m sc cur = { m_amt = mk_dec m sc; m_cur = text_of_string cur }
+
 let () =
+  let dtx = ref [] in
   let txs = ref [] and exs = ref [] and yf = ref None and id = ref "" in
   let reset () = txs := []; exs := []; yf := None in
   (try while true do
@@ -69,7 +82,37 @@ let () =
     let t = String.split_on_char ' ' (String.trim line) in
     let q = qc_of_string in
     match t with
-    | ["CASE"; i] -> reset (); id := i
+    | ["CASE"; i] -> reset (); dtx := []; id := i
+    | "CUR" :: codes -> List.iter (fun c -> Hashtbl.replace currencies c ()) codes
+    | ["RUN"; "dsl_parse"; h] ->
+        (match parse valid_cur (text_of_string (unhex (String.sub h 1 (String.length h - 1)))) with
+         | Inl (n, e) -> let rec ni = function O -> 0 | S k -> 1 + ni k in
+             Printf.printf "{\"id\":%s,\"ok\":false,\"line\":%d,\"why\":%s}\n" (js !id) (ni n) (js (perr_s e))
+         | Inr ts -> Printf.printf "{\"id\":%s,\"ok\":true,\"txns\":%s,\"printed_hex\":%s}\n" (js !id)
+             (jlist (fun t -> js (string_of_text (show_txn t))) ts) (js (hex (string_of_text (print_txns ts)))))
+    | "DTX" :: y :: m :: d :: tick :: rest ->
+        let date = { dy = z_of_string y; dm = z_of_string m; dd = z_of_string d } in
+        let o = (match rest with
+          | ["BUY"; qm; qs; vm; vs; vc; xm; xs; xc] -> DBuy (mk_dec qm qs, mk_money vm vs vc, mk_money xm xs xc)
+          | ["SELL"; qm; qs; vm; vs; vc; xm; xs; xc] -> DSell (mk_dec qm qs, mk_money vm vs vc, mk_money xm xs xc)
+          | ["DIVIDEND"; vm; vs; vc; xm; xs; xc] -> DDividend (mk_money vm vs vc, mk_money xm xs xc)
+          | ["ACCUMULATION"; qm; qs; vm; vs; vc; xm; xs; xc] -> DAccumulation (mk_dec qm qs, mk_money vm vs vc, mk_money xm xs xc)
+          | ["CAPRETURN"; qm; qs; vm; vs; vc; xm; xs; xc] -> DCapReturn (mk_dec qm qs, mk_money vm vs vc, mk_money xm xs xc)
+          | ["SPLIT"; qm; qs] -> DSplit (mk_dec qm qs)
+          | ["UNSPLIT"; qm; qs] -> DUnsplit (mk_dec qm qs)
+          | _ -> failwith ("bad dtx: " ^ line)) in
+        dtx := { x_date = date; x_tick = text_of_string tick; x_op = o } :: !dtx
+    | ["RUN"; "dsl_print"] ->
+        let ts = List.rev !dtx in
+        let printed = print_txns ts in
+        let back = parse valid_cur printed in
+        Printf.printf "{\"id\":%s,\"orig\":%s,\"norm\":%s,\"printed_hex\":%s,\"back\":%s}\n" (js !id)
+          (jlist (fun t -> js (string_of_text (show_txn t))) ts)
+          (jlist (fun t -> js (string_of_text (show_txn (norm_txn t)))) ts)
+          (js (hex (string_of_text printed)))
+          (match back with
+           | Inl (n, e) -> let rec ni = function O -> 0 | S k -> 1 + ni k in Printf.sprintf "{\"ok\":false,\"line\":%d,\"why\":%s}" (ni n) (js (perr_s e))
+           | Inr b -> Printf.sprintf "{\"ok\":true,\"txns\":%s,\"printed_again_hex\":%s}" (jlist (fun t -> js (string_of_text (show_txn t))) b) (js (hex (string_of_text (print_txns b)))))
     | ["X"; y; v] -> exs := (z_of_string y, q v) :: !exs
     | ["Y"; y] -> yf := Some (z_of_string y)
     | "T" :: d :: tick :: rest ->
